@@ -10,8 +10,8 @@ Definition T (s : string) : text := list_byte_of_string s.
 
 Fixpoint split_aux (sep : byte) (l : text) (cur : text) : list text :=
   match l with
-  | [] => [rev cur]
-  | c :: r => if Byte.eqb c sep then rev cur :: split_aux sep r [] else split_aux sep r (c :: cur)
+  | [] => [rev_append cur []]
+  | c :: r => if Byte.eqb c sep then rev_append cur [] :: split_aux sep r [] else split_aux sep r (c :: cur)
   end.
 Definition split (sep : byte) (l : text) : list text := split_aux sep l [].
 Definition text_eqb (a b : text) : bool := list_eqb Byte.eqb a b.
